@@ -3,11 +3,13 @@ package c05
 import (
 	"fmt"
 	"net"
+	"regexp"
 	"strings"
 	"sync/atomic"
 
 	"github.com/saucelabs/forwarder"
 	"github.com/saucelabs/forwarder/pac"
+	"github.com/saucelabs/forwarder/verifharness/c17"
 	"github.com/saucelabs/forwarder/verifharness/core"
 	"github.com/saucelabs/forwarder/verifharness/reqmodel"
 )
@@ -254,6 +256,53 @@ func genRuleResult(r *core.Rand) reqmodel.PacResult {
 	return genPacResult(r)
 }
 
+// ---- --direct-domains as a REAL rule list (C17's generator) ----
+
+// usableHost: a subject derived from the rules that can stand as the host of a request target (plain,
+// CONNECT, inside a tunnel) without being rewritten or refused on the way to req.URL.Hostname().
+var usableHost = regexp.MustCompile(`^[A-Za-z0-9][A-Za-z0-9._-]{0,39}$`)
+
+// directList is a --direct-domains value list drawn from C17's generator (pattern grammar with inline flags,
+// groups, anchors, alternations, classes, include / exclude marks; nearly half of the lists are built around
+// a rule with an unscoped flag group in front of another rule, or a letter that one rule has in upper case
+// and another case-folded) together with the subjects derived from its rules that are usable as hosts.
+type directList struct {
+	values []string
+	hosts  []string
+	labels []string
+}
+
+func genDirectList(r *core.Rand) *directList {
+	for try := 0; try < 40; try++ {
+		dl := &directList{}
+		vals, subs, _ := c17.RuleList(r, func(l string) { dl.labels = append(dl.labels, l) }, 12, 32)
+		incl, empty := 0, false
+		for _, v := range vals {
+			src, excl := strings.CutPrefix(v, "-")
+			if src == "" {
+				empty = true
+			}
+			if !excl {
+				incl++
+			}
+		}
+		if incl == 0 || empty {
+			continue
+		}
+		for _, h := range subs {
+			if usableHost.MatchString(h) {
+				dl.hosts = append(dl.hosts, h)
+			}
+		}
+		if len(dl.hosts) == 0 {
+			continue
+		}
+		dl.values = vals
+		return dl
+	}
+	return nil
+}
+
 func genCase(r *core.Rand) *rcase { return genCaseView(r, machineView()) }
 
 func genCaseView(r *core.Rand, v *hostsView) *rcase {
@@ -301,9 +350,27 @@ func genCaseView(r *core.Rand, v *hostsView) *rcase {
 		}
 		rc.Route.PacDefault = genRuleResult(r)
 	}
+	var derived []string
 	if r.Chance(50) {
 		rc.Route.DirectSet = true
 		rc.Route.Direct = core.Pick(r, directRuleSets)
+		if r.Chance(60) {
+			// a real rule list; its derived subjects are most of the targets of this sequence
+			if dl := genDirectList(r); dl != nil {
+				rc.Route.Direct, rc.Route.DirectRaw, derived = nil, dl.values, dl.hosts
+				rc.genLabels = dl.labels
+				for i := 0; i < 3; i++ {
+					hosts = append(hosts, derived...)
+				}
+				// the wrappers come before the base function: let the PAC table / custom function name such hosts too
+				if rc.Route.Base == "pac" && r.Chance(40) {
+					rc.Route.PacTable = append(rc.Route.PacTable, reqmodel.PacEntry{Host: core.Pick(r, derived), R: genPacResult(r)})
+				}
+				if rc.Route.Base == "custom" && r.Chance(40) {
+					rc.Route.CustomTable = append(rc.Route.CustomTable, reqmodel.CustomEntry{Host: core.Pick(r, derived), URL: genProxyURL(r)})
+				}
+			}
+		}
 	}
 	ng := 0
 	if r.Chance(60) {
@@ -314,10 +381,16 @@ func genCaseView(r *core.Rand, v *hostsView) *rcase {
 	}
 	rc.NGen = ng
 	rc.Route.ConnectTo = append(rc.Route.ConnectTo, routesFor(v)...)
+	for _, h := range derived {
+		rc.Route.ConnectTo = append(rc.Route.ConnectTo, reqmodel.HostPortPair{SrcHost: h, SrcPort: "80", DstHost: "@origin"}, reqmodel.HostPortPair{SrcHost: h, SrcPort: "443", DstHost: "@origin"})
+	}
 	rc.MITM = r.Chance(25)
 	// the request sequence: most targets go to one host[:port] (with varying path / query / scheme / kind),
 	// the rest anywhere
 	focus := core.Pick(r, hosts)
+	if len(derived) > 0 && r.Chance(70) {
+		focus = core.Pick(r, derived)
+	}
 	focusPort := ""
 	if r.Chance(35) {
 		focusPort = core.Pick(r, []string{"80", "8080", "443"})
@@ -481,5 +554,96 @@ func pacAPI(ctx *core.Ctx) {
 		if ms := ctx.Model.MustAsk("C05", "splithostport", core.HexS(addr)); ms != implS {
 			ctx.Disagree("net.SplitHostPort = Model netSplitHostPort", map[string]any{"kind": "splithostport", "addr": addr}, implS, ms)
 		}
+	}
+}
+
+// directCase: one --direct-domains value list and subjects, at API level.
+type directCase struct {
+	Kind     string   `json:"kind"` // "direct-list"
+	Values   []string `json:"values"`
+	Subjects []string `json:"subjects"`
+}
+
+// directAPI compares the matcher the flag values are read into (ruleset.ParseRegexpListItem +
+// NewRegexpMatcherFromList, what --direct-domains hands to HTTPProxyConfig.DirectDomains) with the model's
+// direct-domains verdict and with the per-rule reading, on ALL subjects derived from the rules (also those
+// that cannot stand in a request target: embedded line breaks, blanks, the empty string).
+func directAPI(ctx *core.Ctx) {
+	n := ctx.N(2500, 30000)
+	for i := 0; i < n; i++ {
+		r := ctx.Rng.Sub()
+		vals, subs, _ := c17.RuleList(r, func(string) {}, 12, 32)
+		c := directCase{Kind: "direct-list", Values: vals, Subjects: subs}
+		checkDirectList(ctx, &c)
+	}
+}
+
+func checkDirectList(ctx *core.Ctx, c *directCase) {
+	incl := 0
+	for _, v := range c.Values {
+		src, excl := strings.CutPrefix(v, "-")
+		if src == "" {
+			ctx.Count("api/direct-list/outside-domain/empty-rule")
+			return
+		}
+		if !excl {
+			incl++
+		}
+	}
+	if incl == 0 || len(c.Subjects) == 0 {
+		ctx.Count("api/direct-list/outside-domain/no-include-rule-or-no-subject")
+		return
+	}
+	enc := reqmodel.RawRulesToken(c.Values)
+	if strings.Contains(ctx.Model.MustAsk("C17", "risk", enc), "1") {
+		ctx.Count("api/direct-list/outside-model/rule-inside-go-alternation-factoring")
+		return
+	}
+	var impl strings.Builder
+	crashed := false
+	func() {
+		defer func() {
+			if e := recover(); e != nil {
+				crashed = true
+				ctx.Crash("building and asking the direct-domains matcher never panics", "", c, fmt.Sprint(e))
+			}
+		}()
+		m, err := reqmodel.RawMatcher(c.Values)
+		if err != nil {
+			impl.WriteString("error: " + err.Error())
+			return
+		}
+		impl.WriteString("ok ")
+		for _, s := range c.Subjects {
+			impl.WriteString(core.B01(m.Match(s)))
+		}
+	}()
+	if crashed {
+		return
+	}
+	var want strings.Builder
+	want.WriteString("ok ")
+	anyHit := false
+	for _, s := range c.Subjects {
+		w, err := reqmodel.MatchSpecRaw(c.Values, s)
+		if err != nil {
+			core.Fatalf("C05 direct-list case holds a rule that is not a valid regular expression: %q", c.Values)
+		}
+		anyHit = anyHit || w
+		want.WriteString(core.B01(w))
+	}
+	model := ctx.Model.MustAsk("C05", "directmatch", enc, core.HexList(c.Subjects))
+	if model == "unsupported" {
+		core.Fatalf("C05 direct-list generator left the modelled fragment: %q %q", c.Values, c.Subjects)
+	}
+	ctx.Case("direct-list|"+enc+"|"+core.HexList(c.Subjects), anyHit && len(c.Values) >= 2)
+	ctx.Count(fmt.Sprintf("api/direct-list/rules=%d", min(len(c.Values), 6)))
+	if impl.String() != model {
+		ctx.Disagree("direct-domains matcher (ParseRegexpListItem, NewRegexpMatcherFromList, Match) = Model directMatch", c, impl.String(), model)
+	} else {
+		ctx.TraceValidated()
+	}
+	if impl.String() != want.String() {
+		ctx.SpecFail("a host matches direct-domains iff some include rule matches it on its own and no exclude rule does", "", c, impl.String(), "one regexp per rule gives "+want.String())
 	}
 }
